@@ -1134,7 +1134,7 @@ def rtc_solve(names, tier):
         def mk_cfg(me, chol):
             if chol:
                 return _Cfg(me=me, chol=True)
-            return _Cfg(me=me, chol=False, extra=(_DetProbes(), settings.num_trace_samples(n), settings.max_lanczos_quadrature_iterations(max(n, 2))))
+            return _Cfg(me=me, chol=False, extra=(_DetProbes(), settings.num_trace_samples(2 * n if me else n), settings.max_lanczos_quadrature_iterations(max(n, 2))))
 
         lcfgs = [mk_cfg(False, True), mk_cfg(True, True), mk_cfg(False, False), mk_cfg(True, False)]
         cache = {}
